@@ -151,10 +151,11 @@ def splitBatches (segSize wn : Nat) : List Chunk → Nat → Nat → Bool → Li
 
 def CW.cut (w : CW) : CW := { w with n := segmentHeaderSize, segs := w.segs ++ [segmentHeader] }
 
-def appendLast (segs : List Bytes) (b : Bytes) : List Bytes :=
-  match segs.reverse with
-  | [] => [b]
-  | l :: r => (((l ++ b) :: r).reverse)
+/-- append to the current (last) segment file -/
+def appendLast : List Bytes → Bytes → List Bytes
+  | [], b => [b]
+  | [l], b => [l ++ b]
+  | x :: y :: r, b => x :: appendLast (y :: r) b
 
 /-- `writeChunks`: appends the records to the current segment; returns the references. -/
 def CW.writeBatch (crc : Crc) (w : CW) : List Chunk → Except Err (CW × List Nat)
